@@ -3,6 +3,7 @@ from vlib.defs import Item, Variant, Field, DISABLED, ser, msg, raw, doc
 from vlib.run import Corpus
 from vlib import structs as T
 from vlib import gen as G
+from vlib import strings as S
 from vlib import render as RR
 
 ID = "C13"
@@ -141,7 +142,28 @@ def build_corpus(tier, rng):
             if tag == "default":
                 jm = j + 2
             c.add_q(k, "tryas", [j, i, jm], note=tag)
+        c.add_q(k, "struct", ["EnumIs"], note="structure")
+        c.add_q(k, "struct", ["EnumTryAs"], note="structure")
     return c
+
+
+def crate_configs(tier):
+    return [{"name": "c13"}, {"name": "c13probe", "kind": "genprobe"}]
+
+
+def query_in_config(cfg, kind, args):
+    return (kind == "struct") == (cfg.get("kind") == "genprobe")
+
+
+probe_command = S.struct_probe_command
+
+
+def extra_coverage(corpus, tier):
+    d = S.struct_coverage()
+    d["structural_tie"]["what"] += ("; EnumIs: every generated predicate as name -> the one variant whose arm answers true (the wildcard false); EnumTryAs: every "
+                                    "accessor as name, receiver kind (by value / & / &mut), variant, and that Some((..)) returns ALL bound fields in order; method names "
+                                    "of non-ASCII identifiers are renamed as in the behavioural comparison (Unicode model / reference)")
+    return d
 
 
 def render_def(k, it, meta, cfg):
@@ -153,6 +175,19 @@ def fields_of(vobs):
 
 
 def compare(corpus, k, kind, args, note, iobs, mobs, cfg):
+    if kind == "struct":
+        rn = corpus.meta[k].get("rename")
+        if rn and mobs.startswith("["):
+            # method names of non-ASCII identifiers: the model's (ASCII) name is replaced by the one the Unicode model / reference gives (as below)
+            ents = []
+            for e in [x for x in mobs.strip("[]").split(";") if x]:
+                f_ = e.split(":")
+                name, suffix = f_[0], ""
+                if len(f_) == 4 and f_[1] in ("ref", "mut") and name.endswith("_" + f_[1]):
+                    name, suffix = name[:-4], "_" + f_[1]
+                ents.append(":".join([rn.get(name, name) + suffix] + f_[1:]))
+            mobs = "[" + ";".join(ents) + "]"
+        return S.compare_struct(corpus, k, iobs, mobs)
     it = corpus.defs[k]
     meta = corpus.meta[k]
     i = int(args[1])
